@@ -95,9 +95,14 @@ def normalize(ctx, quick):
     address, ECS user/group mappings, warnings.  The table reaches TLC through a generic YAML decoder."""
     import glob
     prefix = ctx.path("nz", "t")
+    rp = ctx.path("nz", "resolve.ndjson")
     st = ctx.driver_json(["normalize-run", "--out-prefix", prefix, "--shards", 8, "--seed", ctx.seed, "--reps", 3 if quick else 80,
-                          "--repo", core.REPO], timeout=3000)["stats"]
+                          "--repo", core.REPO, "--resolve-out", rp], timeout=3000)["stats"]
     flags, n = [], 0
+    # the same events resolved over an injected user/group database (Resolve.tla)
+    f, k = core.judge_traces(ctx, "normalize", "ResolveTrace", TRACE_CFG, rp, parts=1, xss="64m", timeout=3000)
+    flags += f
+    n += k
     for tp in sorted(glob.glob(prefix + "*.ndjson")):
         f, k = core.judge_traces(ctx, "normalize", "NormalizeTrace", TRACE_CFG, tp, parts=1, xss="64m", timeout=3000)
         flags += f
